@@ -1,5 +1,6 @@
 import Verif.Base.Bytes
 import Verif.Base.SkelIR
+import Verif.Base.SkelOwn
 /-!
 # C12 — model of the stream wrappers of `minify.go`
 
@@ -18,7 +19,12 @@ this file gives the atoms their meaning:
   a `sync.WaitGroup` counter (`Wait` is enabled iff it is zero) and the stored error;
 * `rstep` — the analogous system for `Reader`: goroutine (minifier writing its output into the pipe,
   then `CloseWithError`/`Close`) and a *consumer* whose `Read` sizes are chosen by the schedule;
-* `pickMediatype`, `writeHeader`, `bytesVia` — the sequential wrappers.
+* `pickMediatype`, `writeHeader`, `bytesVia` — the sequential wrappers;
+* `ocall` / `orun` — HISTORIES of `Bytes`/`String` calls over a heap of buffers: what a call hands back is a
+  *reference* into the heap (a Go slice aliases its backing array), the buffer it is cut from is a fresh
+  local or a shared (pooled) one as the regenerated `retFacts` say, and the minifier may scribble on the
+  buffer it is given.  The ownership contract "what call i returned still equals the plain call on
+  input i at every later point of the history" is a statement about this model.
 
 Schedules are lists of thread choices; everything is total and computable.  Core only.
 -/
@@ -467,5 +473,137 @@ def acceptsR (sk : WSkel) (out : Bytes) (err : Option Err) (evs : List REvent) :
   let s := rrun sk err (rinit pieces) sched
   sizesOk && drained && decide (s.got = out) && decide (pieces.flatten = out) &&
     s.rres == some err && evs.getLast? == some (.done err)
+
+/-! ## ownership of returned memory: histories of `Bytes` / `String` calls over a heap
+
+`bytesVia` above treats results as *values*; in a pure model a value can never change afterwards, so
+"the result is still right after the next call" would hold by construction.  A Go `[]byte` is a
+reference into a backing array.  Here the heap is explicit: a list of buffers; the caller's slice, the
+working copy the minifier reads (and may modify in place — contract of the `parse` lexers), and the
+output buffer are cells; a call returns a `Ref` (cell, length).  Where the output buffer comes from and
+what the `return` hands out is read off the regenerated `retFacts` (`BufOrigin`, `RetExpr`): a fresh
+local is a new cell; a shared buffer is taken from / put back into a pool of cells, as `sync.Pool`
+does (`Get`, `Reset`, write, deferred `Put`).  Calls are atomic (a pooled buffer is exclusively held
+between `Get` and `Put`, so every interleaving of concurrent calls has the memory effect of one of
+their sequential orders: histories over several goroutines are the merged histories). -/
+
+abbrev Heap := List Bytes
+
+/-- a slice: the first `len` bytes of heap cell `cell` -/
+structure Ref where
+  cell : Nat
+  len : Nat
+  deriving DecidableEq, Repr
+
+/-- what a retained slice reads *now* -/
+def deref (h : Heap) (r : Ref) : Bytes := (h.getD r.cell []).take r.len
+
+/-- `Reset` followed by writing `new` into a backing array that held `old` -/
+def overwrite (old new : Bytes) : Bytes := new ++ old.drop new.length
+
+/-- what the success `return` hands out -/
+inductive RetKind
+  /-- `X.Bytes()`: a slice of the output buffer itself -/
+  | aliasBuf
+  /-- a copy of the output buffer's content -/
+  | copy
+  /-- the caller's own slice -/
+  | input
+  deriving DecidableEq, Repr
+
+/-- memory behaviour of one of the two helpers, read off the regenerated facts -/
+structure OwnCfg where
+  /-- the output buffer is allocated by the call and stays inside it -/
+  fresh : Bool
+  ret : RetKind
+  /-- the minifier reads a copy of the caller's slice (`parse.Copy(v)`, `[]byte(v)`) -/
+  copied : Bool
+  deriving DecidableEq, Repr
+
+/-- interpretation of a regenerated `RetFact` + the `Bytes`/`String` skeleton: `none` when the shape is
+    not "error return hands back the input, final return hands out the buffer" -/
+def ownCfgOf (f : RetFact) (prog : List WAtom) : Option OwnCfg :=
+  let fresh := match f.buf with | .freshLocal _ => true | .shared _ => false
+  let copied := prog.contains (.minifyBufOrReturnInput true) && !prog.contains (.minifyBufOrReturnInput false)
+  match f.returns with
+  | [.input, .bufBytes] => some { fresh, ret := .aliasBuf, copied }
+  | [.input, .copyOfBuf] => some { fresh, ret := .copy, copied }
+  | [.input, .input] => some { fresh, ret := .input, copied }
+  | _ => none
+
+/-- the ownership discipline the theorems need: output buffer fresh and local, the success return hands out
+    that buffer or a copy of it, the minifier works on a copy of the caller's slice -/
+def ownOK (c : OwnCfg) : Bool := c.fresh && c.copied && (c.ret == .aliasBuf || c.ret == .copy)
+
+/-- one call of a history: `str` = `String` (else `Bytes`), the registered minifier, the caller's input -/
+structure OCall where
+  str : Bool
+  mf : Option MinFn
+  input : Bytes
+
+/-- what the caller retains from a finished call -/
+structure ODone where
+  call : OCall
+  /-- the caller's own input slice -/
+  inRef : Ref
+  /-- the slice (or string) that was returned -/
+  outRef : Ref
+  err : Option Err
+
+structure OState where
+  heap : Heap := []
+  /-- cells currently lying in the shared pool -/
+  pool : List Nat := []
+  done : List ODone := []
+
+/-- what the helper has to return: the plain call's output on success, the caller's data on error -/
+def expected (c : OCall) : Bytes :=
+  match plain c.mf c.input with
+  | (out, none) => out
+  | (_, some _) => c.input
+
+/-- One call.  `scr` is what the minifier leaves in the buffer it was given to read (anything). -/
+def ocall (cfgB cfgS : OwnCfg) (scr : Bytes → Bytes) (s : OState) (c : OCall) : OState :=
+  let cfg := if c.str then cfgS else cfgB
+  let inRef : Ref := ⟨s.heap.length, c.input.length⟩
+  -- the caller's slice, and the working buffer of the minifier (a copy, or that very slice), after the call
+  let h1 := if cfg.copied then s.heap ++ [c.input, scr c.input] else s.heap ++ [scr c.input]
+  let r := plain c.mf c.input
+  -- the output buffer: fresh cell, or pooled cell (`Get` + `Reset` + write; `Put` when the call returns)
+  let (o, h2, pool) : Nat × Heap × List Nat :=
+    if cfg.fresh then (h1.length, h1 ++ [r.1], s.pool)
+    else match s.pool with
+      | p :: rest => (p, h1.set p (overwrite (h1.getD p []) r.1), p :: rest)
+      | [] => (h1.length, h1 ++ [r.1], [h1.length])
+  match r.2 with
+  | some e => { heap := h2, pool, done := s.done ++ [⟨c, inRef, inRef, some e⟩] }
+  | none =>
+    match cfg.ret with
+    | .aliasBuf => { heap := h2, pool, done := s.done ++ [⟨c, inRef, ⟨o, r.1.length⟩, none⟩] }
+    | .copy => { heap := h2 ++ [(h2.getD o []).take r.1.length], pool,
+                 done := s.done ++ [⟨c, inRef, ⟨h2.length, r.1.length⟩, none⟩] }
+    | .input => { heap := h2, pool, done := s.done ++ [⟨c, inRef, inRef, none⟩] }
+
+/-- a history: the calls one after the other -/
+def orun (cfgB cfgS : OwnCfg) (scr : Bytes → Bytes) : OState → List OCall → OState
+  | s, [] => s
+  | s, c :: cs => orun cfgB cfgS scr (ocall cfgB cfgS scr s c) cs
+
+/-- the two configurations (`Bytes`, `String`) described by the regenerated facts -/
+def ownCfgs (sk : WSkel) (facts : List RetFact) : Option (OwnCfg × OwnCfg) :=
+  match facts with
+  | [fb, fs] =>
+    if fb.func == "Bytes" && fs.func == "String" then
+      match ownCfgOf fb sk.bytes, ownCfgOf fs sk.string with
+      | some cb, some cs => some (cb, cs)
+      | _, _ => none
+    else none
+  | _ => none
+
+/-- the regenerated facts describe helpers that keep to the ownership discipline -/
+def wfOwnership (sk : WSkel) (facts : List RetFact) : Bool :=
+  match ownCfgs sk facts with
+  | some (cb, cs) => ownOK cb && ownOK cs
+  | none => false
 
 end Verif.Model.Stream
